@@ -257,11 +257,9 @@ func (k Key) String() string {
 		}
 		return fmt.Sprintf("Ctrl+%c", val)
 	case k.Keycode <= unicode.MaxRune:
-		if k.Modifiers&ModCapsLock != 0 {
-			buf.WriteRune(unicode.ToUpper(k.Keycode))
-		} else {
-			buf.WriteRune(k.Keycode)
-		}
+		// Caps lock does not change the description: lock state never
+		// affects matching, and "A" names shift+a
+		buf.WriteRune(k.Keycode)
 	}
 
 	for _, kn := range keyNames {
